@@ -205,6 +205,23 @@ def run_poll(pid, tier, seed):
                distinct_nontrivial=delivered, rule='one evaluation = one event (connect / reconnect / disconnect / send / drain) replayed on the real registry and worker, directly and through the real PollWorker.Start loop; non-trivial = messages actually delivered into a listener buffer',
                configurations=[[2, 1], [3, 2], [1, 1]], samples=samples or [{'note': 'none'}], exhaustive=False)
     assumptions = ['Poll.tla; which member of a group gets an unaddressed message is the implementation\'s choice', 'the HTTP/SSE handler goroutines are not part of this replay (the registry, worker loop and Process are)']
+    if not viol:
+        # the transport applies the notify rule only if it is told that a message is a notification: the table of
+        # Route.tla played on the real sender worker, what it hands to the transport judged by TLC
+        core.build(['routex'])
+        vec = f'{rundir}/rvectors.ndjson'
+        nvec = gen_vectors('RouteGen.tla', vec, rundir)
+        robs = f'{rundir}/robs.ndjson'
+        rcmd = f'{V}/build/routex -vectors {vec} -out {robs}'
+        p = core.sh(rcmd)
+        if p.returncode != 0:
+            print(p.stdout[-1500:], p.stderr[-1500:]); core.die('routex failed')
+        r = tlc_trace('RouteTrace.tla', robs, ['C18_TransportToldTheKind'], f'{rundir}/rv', extra_consts='  Known = {}\n')
+        if r['error']:
+            print(r['error']); core.die('TLC could not validate the hand-offs (machinery error)')
+        cov['handoffs_to_the_transport'] = nvec
+        if r['violated']:
+            r['module'] = 'RouteTrace.tla'; viol = (r, rcmd)
     if viol:
         r, cmd = viol
         dd = save_violation(pid, r, cmd)
